@@ -489,13 +489,22 @@ def diffDelta (listed objects : List File) : List DeltaEl :=
     | none => some (.withdraw u)) ++
   (objects.filter fun o => !(listed.any fun l => l.1 = o.1)).map fun (u, c) => .publish u c
 
-/-- `ca_repo_sync` against the embedded server: `server = none` means the list query is refused
-(publisher unknown); otherwise the delta (if any) is sent and the server accepts or refuses it.
-Returns the events and the server's new content. -/
-def repoSyncEvents (ca uri : String) (server : Option (List File)) (objects : List File)
-    (listErr deltaErr : String) (now : Nat) : List Ev × Option (List File) :=
+/-- `ca_repo_sync`.  `server = none` means the server does not know the publisher.  A remote
+server (`embedded = false`) then refuses the list query.  The server embedded in the same krill
+(`send_rfc8181_and_validate_response` calls `rfc8181_message` directly) answers a list query of an
+unknown publisher with the empty list and only refuses the delta – so the exchange is "list
+succeeded, delta failed" unless there is nothing to publish.  With a known publisher the delta (if
+any) is sent and the server accepts or refuses it.  Returns the events and the server's new
+content. -/
+def repoSyncEvents (ca uri : String) (embedded : Bool) (server : Option (List File))
+    (objects : List File) (listErr deltaErr : String) (now : Nat) : List Ev × Option (List File) :=
   match server with
-  | none => ([.repoList ca uri (.error listErr) now], none)
+  | none =>
+    if embedded then
+      let d := diffDelta [] objects
+      if d.isEmpty then ([.repoList ca uri (.ok ()) now], none)
+      else ([.repoList ca uri (.ok ()) now, .repoDelta ca uri d (.error deltaErr) now], none)
+    else ([.repoList ca uri (.error listErr) now], none)
   | some m =>
     let d := diffDelta m objects
     if d.isEmpty then ([.repoList ca uri (.ok ()) now], some m)
@@ -589,7 +598,7 @@ def WEv.foreign (ca : String) : WEv → Bool
 
 def wstep (ca uri : String) (w : World) : WEv → World
   | .sync objects now =>
-    let r := repoSyncEvents ca uri w.server objects "list-refused" "delta-refused" now
+    let r := repoSyncEvents ca uri true w.server objects "list-refused" "delta-refused" now
     { store := run w.store r.1, server := r.2 }
   | .other e => { w with store := step w.store e }
   | .publisherRemoved => { w with server := none }
